@@ -10,7 +10,7 @@ from vlib.core import *
 from vlib import native
 from vlib.asmx.engine import Engine, State, Region, bv, simp, conc, fresh, Unsupported, BoundExceeded, RET_SENTINEL
 from vlib.asmx.decode import Obj
-from props.asm_hmac import rd, cat, bytes_of, reset_image
+from props.asm_hmac import rd, cat, bytes_of, reset_image, same_bytes
 from props.asm_kern import enc
 
 MGR, JOBS, STK, DATA = 0x1500000, 0x1600000, 0x1700000, 0x1800000
@@ -135,7 +135,7 @@ def run_scenario(ctx, variant, bits, blocks, coff=0, safe_data=True, res=None, s
                 exp += bytes_of(chain, 16)
             got = [R['ct%d' % i].get(k) for k in range(j['L'])]
             t1 = time.time()
-            if all(is_true(simplify(g == e)) for g, e in zip(got, exp)):
+            if same_bytes(got, exp):
                 r = unsat
             else:
                 r, m = E.check(f, Or(*[g != e for g, e in zip(got, exp)]))
